@@ -132,4 +132,34 @@ def runStore : List Nat → List SOp → List (List Nat)
   | st, .register f :: ops => runStore (st ++ [f]) ops
   | st, .cancel :: ops => st :: runStore st ops
 
+
+/-! ### the context-based runner: which kind it answers with -/
+
+/-- how the runner's own context (deadline `timeout`, child of the caller's) has ended when the runner decides -/
+inductive CtxEnd | alive | deadline | parentCancelled
+  deriving Repr, DecidableEq, Inhabited
+
+inductive ROut | own (failed : Bool) | timeout | cancelled
+  deriving Repr, DecidableEq, Inhabited
+
+structure CtxFacts where
+  entryTestsParent : Bool            -- `DetermineContextError(ctx)` before anything else
+  resultBranchRechecksContext : Bool -- after the action's result: `err2 := DetermineContextError(timeoutContext)`
+  doneBranchKindFromContext : Bool   -- Done branch: `return DetermineContextError(timeoutContext)` (not a fixed kind)
+  deriving Repr, DecidableEq, Inhabited
+
+def kindOf : CtxEnd → ROut
+  | .deadline => .timeout
+  | .parentCancelled => .cancelled
+  | .alive => .own false      -- never used: the Done branch is taken only once the context has ended
+
+/-- `RunActionWithTimeoutAndCancelStore`: `cancelledAtEntry` — the caller's context is done at the call;
+    `resultFirst` — the select takes the action's result (else the Done branch); `ended` — state of the runner's
+    context when it is looked at; `failed` — the action returned an error -/
+def ctxRunner (f : CtxFacts) (cancelledAtEntry resultFirst : Bool) (ended : CtxEnd) (failed : Bool) : ROut :=
+  if cancelledAtEntry && f.entryTestsParent then .cancelled
+  else if resultFirst then
+    (if f.resultBranchRechecksContext then (match ended with | .alive => .own failed | e => kindOf e) else .own failed)
+  else if f.doneBranchKindFromContext then kindOf ended else .timeout
+
 end GoUtils.Runner
